@@ -116,15 +116,19 @@ def gen_flow(rng, families=None, allow_pydrex=True):
 
 
 def gen_path(rng, flow):
+    """Pathline spec.  For PyDRex's Stokes cell the path must stay inside the cell
+    (|x_i| <= 1 for edge length 2) over any horizon the generators use (tau <= 10)."""
     if flow["family"] in ("posdep", "pydrex_cell"):
         k = rng.choice(["line", "circle", "static"])
     else:
         k = rng.choice(["static", "static", "line"])
-    x0 = [rng.uniform(-0.6, 0.6) for _ in range(3)]
+    inside = flow["family"] == "pydrex_cell"
+    x0 = [rng.uniform(-0.5, 0.5) for _ in range(3)]
     if k == "static":
         return {"kind": "static", "x0": x0}
     if k == "line":
-        return {"kind": "line", "x0": x0, "v": [rng.uniform(-0.1, 0.1) for _ in range(3)]}
+        vmax = 0.04 if inside else 0.1
+        return {"kind": "line", "x0": x0, "v": [rng.uniform(-vmax, vmax) for _ in range(3)]}
     return {"kind": "circle", "x0": x0, "r": rng.uniform(0.05, 0.3), "w": rng.uniform(0.2, 2.0)}
 
 
